@@ -39,6 +39,9 @@ TValidate == IsEv("validate") /\ Ev.k = ValidateResult /\ UNCHANGED vars
 \* Run called again on a graph that already ran: nothing is launched, the same result comes back
 TRerun   == IsEv("rerun") /\ phase = "returned" /\ Ev.k = result
               /\ (result = "errors" => ToSet(Ev.tags) = errs) /\ UNCHANGED vars
+\* the program continues with the graph that ran successfully
+TContinue == IsEv("continue") /\ Continue
+TSetLimit == IsEv("setlimit") /\ SetLimit(Ev.n)
 TAllDoneAgain == IsEv("alldone") /\ phase = "returned" /\ result \in {"nil", "errors"} /\ UNCHANGED vars
 
 \* DepthFirstSort: an error exactly for cyclic graphs, otherwise every vertex once, dependencies first
@@ -101,7 +104,7 @@ TraceInit == l = 1 /\ EmptyGraph /\ RunInit /\ limit = 1 /\ serial = FALSE /\ bu
 
 TraceNext ==
   /\ \/ TConfig \/ TAdd \/ TDep \/ TRetries \/ TDefErr \/ TSort \/ TRun
-     \/ TTmAdd \/ TTmGet \/ TDot \/ TValidate \/ TRerun \/ TAllDoneAgain
+     \/ TTmAdd \/ TTmGet \/ TDot \/ TValidate \/ TRerun \/ TAllDoneAgain \/ TContinue \/ TSetLimit
      \/ TLaunch \/ TRecv \/ TIdle \/ TObserved \/ TAllDone
      \/ TAcquiring \/ TLocking \/ TAcquired \/ TLocked \/ TEnter \/ TFrag \/ TExit \/ TWrite \/ TFlush \/ TSending \/ TUnlock \/ TRelease
      \/ TCancel \/ TEnvLock \/ TEnvUnlock \/ TReturned
